@@ -341,6 +341,9 @@ func sessionEventReachesCorrelation(c *Check, t *Tracker) {
 		name := "delivery entry point " + ep.Name()
 		leafOK := func(o *Org) bool {
 			root, names := o.FieldPath()
+			if sameOrg(root, item) && len(names) == 0 {
+				return true // the event pointer itself (a defensive nil test)
+			}
 			return sameOrg(root, item) && len(names) == 1 && names[0] == "Session"
 		}
 		bad := false
